@@ -1,7 +1,7 @@
 use std::rc::Rc;
 
 use beff_core::subtyping::bdd::{Atom, Bdd, BddOps};
-use beff_core::subtyping::dnf::{bdd_to_dnf, dnf_to_bdd};
+use beff_core::subtyping::dnf::{Conjunction, bdd_to_dnf, dnf_to_bdd};
 use serde_json::{Value, json};
 
 pub fn atom_of(kind: &str, i: usize) -> Atom {
@@ -96,7 +96,24 @@ pub fn bddop(inp: &Value) -> Value {
                 }
                 if any { tt_dnf |= 1 << asg; }
             }
-            json!({"result": to_json(&back), "tt_result": table(&back, n), "tt_dnf": tt_dnf, "tt_expected": table(&x, n)})
+            let ok = tt_dnf == table(&x, n);
+            json!({"result": to_json(&back), "tt_result": if ok { table(&back, n) } else { tt_dnf }, "tt_dnf": tt_dnf, "tt_expected": table(&x, n)})
+        }
+        "dnf_to_bdd" => {
+            let mut d = vec![];
+            let mut exp = 0u64;
+            for c in inp["conjs"].as_array().unwrap() {
+                let pos: Vec<Atom> = c["pos"].as_array().unwrap().iter().map(|a| atom_of(kind, a.as_u64().unwrap() as usize)).collect();
+                let neg: Vec<Atom> = c["neg"].as_array().unwrap().iter().map(|a| atom_of(kind, a.as_u64().unwrap() as usize)).collect();
+                for asg in 0..(1u32 << n) {
+                    if pos.iter().all(|a| (asg >> atom_idx(a)) & 1 == 1) && neg.iter().all(|a| (asg >> atom_idx(a)) & 1 == 0) {
+                        exp |= 1 << asg;
+                    }
+                }
+                d.push(Conjunction { positive: pos, negative: neg });
+            }
+            let res = dnf_to_bdd(&d);
+            json!({"result": to_json(&res), "tt_result": table(&res, n), "tt_expected": exp})
         }
         _ => {
             let x = bdd_of(&inp["x"], kind);
